@@ -19,13 +19,22 @@ Verdict(r) ==
       fids == [i \in 1 .. Len(f.rows) |-> IdOf(f.rows[i][1])]
       pids == { IdOf(p.rows[i][1]) : i \in 1 .. Len(p.rows) }
       roots == { r.roots[i] : i \in 1 .. Len(r.roots) }
-      want == UNION { Behind(w, rt) : rt \in roots }
+      fol == { r.followed[i] : i \in 1 .. Len(r.followed) }          \* the roots that carry the option
+      \* Roots that differ in the option: a directory below a root without the option is searched by that root, without
+      \* following the links in it, and - once per query - by nobody else.  So the rows that MUST appear are the plain listing
+      \* of every root plus what the following roots reach without passing through such a directory; the rows that MAY appear
+      \* are what following from every root would give.
+      plainDirs == UNION { { rt } \cup { d \in NodeIds(w) : Below(w, rt, d) /\ w.nodes[d].kind = "dir" } : rt \in roots \ fol }
+      must == UNION { Listed(w, rt, 0, 0) : rt \in roots }
+              \cup UNION { ChildrenOf(w, d) : d \in ClosureAvoid(w, fol, plainDirs) \ plainDirs }
+      want == IF fol = roots THEN UNION { Behind(w, rt) : rt \in roots } ELSE must
+      may  == UNION { Behind(w, rt) : rt \in roots }
       plain == UNION { Listed(w, rt, 0, 0) : rt \in roots }
       got == { fids[i] : i \in 1 .. Len(fids) }
       y == IF f.timed_out THEN "hang"
            ELSE IF f.panic THEN "crash"
            ELSE IF want \ got # {} THEN "missing-entry-behind-link"
-           ELSE IF got \ want # {} THEN (IF 0 \in got THEN "row-from-outside-the-world" ELSE "extra-row")
+           ELSE IF got \ (IF fol = roots THEN want ELSE may) # {} THEN (IF 0 \in got THEN "row-from-outside-the-world" ELSE "extra-row")
            ELSE IF Cardinality(got) # Len(fids) THEN "entry-listed-twice"
            ELSE IF f.status # 0 THEN "status-" \o ToString(f.status)
            ELSE IF pids # plain \/ Len(p.rows) # Cardinality(pids) THEN "without-option-wrong-rows"
